@@ -6,6 +6,8 @@ CONSTANTS
   Layouts = {"contig"}
   MaxOps = 2
   MaxStep = 3
+  Fills = {0}
+  ValKinds = {"fresh"}
   Emit = FALSE
 INVARIANTS TypeOK RoundTrip SelectionIsSlice
 CHECK_DEADLOCK FALSE
